@@ -24,7 +24,7 @@ Inductive astep : cfg -> cfg -> Prop :=
 | A_sched_to td s dl b :
     astep (td, s) (td, add_handle (next s) (sched_timer (HUser (next s) (KTo dl) b)
                                              (emit (ESt (next s) dl) (bump s))))
-| A_cancel td s i : astep (td, s) (td, cancel_inst i (emit (ERm i) s))
+| A_cancel td s i : In i (handles s) -> astep (td, s) (td, cancel_inst i (emit (ERm i) s))
 | A_add_future td s f b :
     astep (td, s) (td, add_done_callback f (FcUser (next s) b) (emit (EAf (next s) f) (bump s)))
 | A_add_done td s key c : (c = FcDiscard \/ c = FcStop) -> astep (td, s) (td, add_done_callback key c s)
@@ -71,8 +71,8 @@ Proof.
   destruct o as [b|fm t b|k|f b|f v|f e|f|t]; cbn [exec_op]; intro H.
   - inversion H; subst. apply asteps_one. apply A_sched_cb.
   - inversion H; subst. apply asteps_one. apply A_sched_to.
-  - destruct (nth_error (handles s) k) as [i|]; inversion H; subst.
-    + apply asteps_one. apply A_cancel.
+  - destruct (nth_error (handles s) k) as [i|] eqn:NE; inversion H; subst.
+    + apply asteps_one. apply A_cancel. eapply nth_error_In; eauto.
     + constructor.
   - inversion H; subst. apply asteps_one. apply A_add_future.
   - destruct (resolve f (FOk (Some v)) s) as [s1|] eqn:R; inversion H; subst.
